@@ -12,6 +12,11 @@ Parameters (the theorems hold for every instantiation):
   `loads : Str → Except Unit JVal`         `json.loads` / `yaml.load(.., Loader=SafeLoader)`; `.error` = it raised
   `stamp : Line → Option RawStamp`         `time_re.search(line)` + the fields `strptime` extracts from the match
   `hasYear : Bool`                         `logs_have_year` (a function of the class's `time_format`)
+Not modelled (outside the property or format-level only): the `time_format is None` RuntimeError and the
+ParseException for an unknown strptime directive / format type (lines 1277-1357: they depend on the class, not
+on the log), the dictionaries built by `_parse_line` (only `raw_message` is compared), scanner registration
+(`keep_scan` / `last_scan` / `token_scan` are tied through `get` / `textContains`), `get(None)`, non-string
+search items, `num` that is not an int, tz-aware thresholds, LazyLogFileOutput.
 The bad-line lists are arguments here; `IV/Gen/BadLines.lean` (regenerated from the live class on
 every run) supplies them to the theorems' instances and to the driver.
 -/
